@@ -9,15 +9,21 @@
         parameters (F41) and calls Update(old best) once more (fix 05cfcb8b, F42), then returns the error;
         the side branch stays in the block store and every further block of that branch repeats it.
     Call sequences recorded from the real ChainService (harness/engines/dposlib chain engine).
-    [bad] says which block identifiers fail when executed. *)
+      * a block refused by IsBlockValid (not the slot's producer, key not a current BP): executeBlock
+        returns before executing and before its Update(best); as a child of the best block nothing
+        happens at all; inside reorg.rollforward only reorg()'s own Update(old best) runs (F42), with
+        the status standing on the previous new-branch block.  Status.Update tells a connected block
+        from a rollback target by HASH linkage (best.id = block.prev): the old best block is never the
+        child of a new-branch block, whatever its height.
+    [bad] says which block identifiers fail when executed, [ref] which are refused by IsBlockValid. *)
 From Coq Require Import ZArith List Bool Lia.
 From Verif Require Import Dpos.Lib.
 Import ListNotations.
 Open Scope Z_scope.
 
-Inductive foutcome := FO (o : outcome) | FExecFailed | FReorgFailed.
+Inductive foutcome := FO (o : outcome) | FExecFailed | FReorgFailed | FRefused | FReorgRefused.
 Definition foutcome_code (o : foutcome) : Z :=
-  match o with FO o => outcome_code o | FExecFailed => 12 | FReorgFailed => 13 end.
+  match o with FO o => outcome_code o | FExecFailed => 12 | FReorgFailed => 13 | FRefused => 16 | FReorgRefused => 17 end.
 
 (* cs.Update(bestBlock) after a failed execution *)
 Definition update_to_best (main : list block) (nd : node) (st : status) : status :=
@@ -30,15 +36,17 @@ Definition exec_fail (nd : node) : node :=
   mkNode (nd_size nd) (nd_self nd) (update_to_best (nd_main nd) nd (nd_st nd))
          (nd_main nd) (nd_store nd) (nd_saved nd).
 
-(* the new blocks executed before the first failing one, and the failing one if any *)
-Fixpoint ok_prefix (bad : Z -> bool) (l : list block) : list block * option block :=
+(* the new blocks executed before the first failing one, and the failing one if any, with its
+   kind (true = refused by IsBlockValid, false = execution failure) *)
+Fixpoint ok_prefix (bad ref : Z -> bool) (l : list block) : list block * option (block * bool) :=
   match l with
   | [] => ([], None)
-  | b :: tl => if bad (k_id b) then ([], Some b)
-               else let '(p, f) := ok_prefix bad tl in (b :: p, f)
+  | b :: tl => if ref (k_id b) then ([], Some (b, true))
+               else if bad (k_id b) then ([], Some (b, false))
+               else let '(p, f) := ok_prefix bad ref tl in (b :: p, f)
   end.
 
-Definition deliver_f (bad : Z -> bool) (nd : node) (blk : block) : node * foutcome :=
+Definition deliver_f (bad ref : Z -> bool) (nd : node) (blk : block) : node * foutcome :=
   let ls := st_ls (nd_st nd) in
   match find_block (nd_store nd) (k_id blk) with
   | Some _ => (nd, FO ODup)
@@ -51,7 +59,8 @@ Definition deliver_f (bad : Z -> bool) (nd : node) (blk : block) : node * foutco
   let store' := blk :: nd_store nd in
   let best := st_best (nd_st nd) in
   if k_prev blk =? k_id best then
-    if bad (k_id blk) then (exec_fail nd, FExecFailed)
+    if ref (k_id blk) then (nd, FRefused)
+    else if bad (k_id blk) then (exec_fail nd, FExecFailed)
     else
     let st' := status_update (main_get (nd_main nd)) [] (nd_size nd) (nd_st nd) blk in
     (mkNode (nd_size nd) (nd_self nd) st' (nd_main nd ++ [blk]) store' (Some (save (st_ls st'))), FO OConnected)
@@ -66,15 +75,20 @@ Definition deliver_f (bad : Z -> bool) (nd : node) (blk : block) : node * foutco
         else
           let main_r := firstn (Z.to_nat (k_no root) + 1) (nd_main nd) in
           let st1 := status_update (main_get main_r) [] (nd_size nd) (nd_st nd) root in
-          let '(okb, failed) := ok_prefix bad new_blocks in
+          let '(okb, failed) := ok_prefix bad ref new_blocks in
           let st2 := fold_left (status_update (main_get main_r) [] (nd_size nd)) okb st1 in
           match failed with
-          | Some _ =>
+          | Some (_, false) =>
             (* executeBlock's Update(old best), then reorg's own Update(old best) (fix 05cfcb8b, F42) *)
             (mkNode (nd_size nd) (nd_self nd)
                     (update_to_best (nd_main nd) nd (update_to_best (nd_main nd) nd st2))
                     (nd_main nd) store' (nd_saved nd),
              FReorgFailed)
+          | Some (_, true) =>
+            (* refused by IsBlockValid: only reorg's Update(old best) *)
+            (mkNode (nd_size nd) (nd_self nd) (update_to_best (nd_main nd) nd st2)
+                    (nd_main nd) store' (nd_saved nd),
+             FReorgRefused)
           | None =>
             (mkNode (nd_size nd) (nd_self nd) st2 (main_r ++ new_blocks) store' (Some (save (st_ls st2))), FO OReorg)
           end
@@ -82,71 +96,55 @@ Definition deliver_f (bad : Z -> bool) (nd : node) (blk : block) : node * foutco
   end end.
 
 (** consensus calls of the chain service, failures included (see Lib.deliver_calls) *)
-Definition deliver_f_calls (bad : Z -> bool) (nd : node) (blk : block) : list Z :=
+Definition deliver_f_calls (bad ref : Z -> bool) (nd : node) (blk : block) : list Z :=
   let best := k_id (st_best (nd_st nd)) in
-  match snd (deliver_f bad nd blk) with
+  match snd (deliver_f bad ref nd blk) with
   | FO _ => deliver_calls nd blk
   | FExecFailed => [1; k_no blk; 5; k_id blk; 6; k_id blk; best; 3; best]
-  | FReorgFailed =>
+  | FRefused => [1; k_no blk; 5; k_id blk; 6; k_id blk; best]
+  | FReorgFailed | FReorgRefused =>
       match gather (length (blk :: nd_store nd)) (nd_main nd) (blk :: nd_store nd) blk [] with
       | Some (root, nb) =>
-          let '(okb, failed) := ok_prefix bad nb in
+          let '(okb, failed) := ok_prefix bad ref nb in
           [1; k_no blk; 5; k_id blk; 2; k_no root; 3; k_id root] ++
           flat_map (fun b => [6; k_id b; best; 3; k_id b]) okb ++
-          match failed with Some b => [6; k_id b; best; 3; best; 3; best] | None => [] end
+          match failed with
+          | Some (b, false) => [6; k_id b; best; 3; best; 3; best]
+          | Some (b, true) => [6; k_id b; best; 3; best]
+          | None => []
+          end
       | None => []
       end
   end.
 
 Inductive fevent := FDeliver (b : block) | FRestart.
-Definition step_f (bad : Z -> bool) (nd : node) (e : fevent) : node :=
-  match e with FDeliver b => fst (deliver_f bad nd b) | FRestart => restart nd end.
-Definition run_f (bad : Z -> bool) (nd : node) (evs : list fevent) : node := fold_left (step_f bad) evs nd.
+Definition step_f (bad ref : Z -> bool) (nd : node) (e : fevent) : node :=
+  match e with FDeliver b => fst (deliver_f bad ref nd b) | FRestart => restart nd end.
+Definition run_f (bad ref : Z -> bool) (nd : node) (evs : list fevent) : node := fold_left (step_f bad ref) evs nd.
 
 (** scenario check against the engine (ops: deliveries, "this id fails", restarts) *)
-Inductive fop := FOpD (b : block) (h : Z) | FOpBad (id : Z) | FOpR (h : Z) | FOpS (h : Z)
+Inductive fop := FOpD (b : block) (h : Z) | FOpBad (id : Z) | FOpRef (id : Z) | FOpR (h : Z) | FOpS (h : Z)
   | FOpL (n : Z) | FOpC (b : block) (h : Z).   (* chain-side tie, as Lib.OpL / Lib.OpC *)
-Fixpoint fscenario_check (badl : list Z) (nd : node) (ops : list fop) (i : nat) : option nat :=
+Fixpoint fscenario_check (badl refl : list Z) (nd : node) (ops : list fop) (i : nat) : option nat :=
   match ops with
   | [] => None
-  | FOpBad id :: tl => fscenario_check (id :: badl) nd tl (S i)
+  | FOpBad id :: tl => fscenario_check (id :: badl) refl nd tl (S i)
+  | FOpRef id :: tl => fscenario_check badl (id :: refl) nd tl (S i)
   | FOpD b h :: tl =>
-      let '(nd', oc) := deliver_f (fun id => zmem id badl) nd b in
-      if obs_hash (foutcome_code oc) nd' =? h then fscenario_check badl nd' tl (S i) else Some i
+      let '(nd', oc) := deliver_f (fun id => zmem id badl) (fun id => zmem id refl) nd b in
+      if obs_hash (foutcome_code oc) nd' =? h then fscenario_check badl refl nd' tl (S i) else Some i
   | FOpR h :: tl =>
       let nd' := restart nd in
-      if obs_hash 8 nd' =? h then fscenario_check badl nd' tl (S i) else Some i
+      if obs_hash 8 nd' =? h then fscenario_check badl refl nd' tl (S i) else Some i
   | FOpS h :: tl =>
-      if obs_hash 8 (restart nd) =? h then fscenario_check badl nd tl (S i) else Some i
-  | FOpL n :: tl => fscenario_check badl (set_node_lib nd n) tl (S i)
+      if obs_hash 8 (restart nd) =? h then fscenario_check badl refl nd tl (S i) else Some i
+  | FOpL n :: tl => fscenario_check badl refl (set_node_lib nd n) tl (S i)
   | FOpC b h :: tl =>
       let bad := fun id => zmem id badl in
-      let nd' := fst (deliver_f bad nd b) in
-      if chain_obs_hash (deliver_f_calls bad nd b) nd' =? h then fscenario_check badl nd' tl (S i) else Some i
-  end.
-Fixpoint fscenario_obs_at (badl : list Z) (nd : node) (ops : list fop) (i : nat) : list Z :=
-  match ops with
-  | [] => []
-  | FOpBad id :: tl => match i with O => [] | S j => fscenario_obs_at (id :: badl) nd tl j end
-  | FOpL n :: tl => match i with O => [] | S j => fscenario_obs_at badl (set_node_lib nd n) tl j end
-  | FOpC b _ :: tl =>
-      let bad := fun id => zmem id badl in
-      let nd' := fst (deliver_f bad nd b) in
-      match i with
-      | O => deliver_f_calls bad nd b ++ k_id (st_best (nd_st nd')) :: Z.of_nat (length (nd_main nd')) :: main_ids nd'
-      | S j => fscenario_obs_at badl nd' tl j
-      end
-  | o :: tl =>
-      let '(nd', code, keep) :=
-        match o with
-        | FOpD b _ => let '(nd', oc) := deliver_f (fun id => zmem id badl) nd b in (nd', foutcome_code oc, nd')
-        | FOpR _ => (restart nd, 8, restart nd)
-        | _ => (restart nd, 8, nd)
-        end in
-      match i with O => flat_obs code nd' | S j => fscenario_obs_at badl keep tl j end
+      let ref := fun id => zmem id refl in
+      let nd' := fst (deliver_f bad ref nd b) in
+      if chain_obs_hash (deliver_f_calls bad ref nd b) nd' =? h then fscenario_check badl refl nd' tl (S i) else Some i
   end.
 Definition fscenario_first_diff (c : (Z * Z) * list fop) : Z :=
   let '((size, self), ops) := c in
-  match fscenario_check [] (init_node size self) ops 0 with None => -1 | Some i => Z.of_nat i end.
-Definition fscenario_debug (c : (Z * Z) * list fop) (i : nat) : list Z :=
-  let '((size, self), ops) := c in fscenario_obs_at [] (init_node size self) ops i.
+  match fscenario_check [] [] (init_node size self) ops 0 with None => -1 | Some i => Z.of_nat i end.
